@@ -16,9 +16,9 @@ CLAIMED = {
  "C13": ("all evaluation strategies incl. symbolic pool size and every completion order of a pool double; outputs equal term-by-term and calls == evaluated points on every accept/reject path", "DSE + z3 (UF/LIA), symbolic completion order", "§4 C13"),
  "C14": ("real Trainer/Resampler/ModeStatistics with a contract double for the clusterer and the t-fit; label/mode coherence and fitted-before-predict for symbolic iteration index, cadence and labels, after a resume, over two consecutive iterations and under every outcome of the internal resampling", "DSE + z3 (LIA)", "§4 C14"),
  "C15": ("real M-step/covariances on symbolic data and responsibilities (algebraic invariants via nlsat); round-off model of binary64 for the d=1 variance; k-means++ initialisation under a range abstraction of exp; real hierarchical control logic with a contract double for the inner mixture, incl. a second fit", "DSE + z3 nlsat / LIA", "§4 C15"),
- "C16": ("bit-precise QF_FP encoding obtained by executing the real apply_boundary_conditions/check_bounds on symbolic doubles; range, idempotence, modulo value and triangle-wave value decided for all finite doubles (value clauses per binade)", "symbolic execution + z3 QF_FP/BV bit-blasting", "§4 C16"),
+ "C16": ("bit-precise QF_FP encoding obtained by executing the real apply_boundary_conditions/check_bounds on symbolic doubles; range, idempotence, modulo value and triangle-wave value decided for all finite doubles (value clauses per binade); the closing clause (symmetry of the folded random-walk proposal) is decided on the real RWM step (d=1 periodic/reflective, d=2 reflective: known finding for correlated scale matrices)", "symbolic execution + z3 QF_FP/BV bit-blasting", "§4 C16"),
  "C17": ("operation sequences over the real StateManager/Sampler accessors with scribbling of every returned buffer; later observables must be term-equal (z3) to their pre-scribble values", "DSE + scribble symbols + z3", "§4 C17"),
- "C18": ("real Sampler.__init__/SamplerConfig validation on symbolic option values; constructor raises iff the documented-constraint predicate is false, on every path", "DSE + z3 (LIA/LRA/strings)", "§4 C18"),
+ "C18": ("real Sampler.__init__/SamplerConfig validation on symbolic option values; constructor raises iff the documented-constraint predicate is false, on every path; a slice of the running clause (training step under every partition of the pool, fit double enforcing the real precondition) reports a known finding", "DSE + z3 (LIA/LRA/strings)", "§4 C18"),
  "C19": ("one ECME iteration of the real fit_mvstud and the dof fallback in ModeStatistics on symbolic data; equivariance/bounding-box/PSD as z3 queries (nu update as uninterpreted function); the dof decision can depend on the data (QF_FP, existential); concrete data under ill-conditioned scalings with numpy's pinv cut-off modelled", "relational DSE + z3 (QF_UFNRA)", "§4 C19"),
  "C20": ("all paths of the real ESS/trim_weights/volume_variation on symbolic weights and samples within size bounds; bounds, threshold structure and invariances as z3 queries; ESS in the round-off model of binary64 for weights in [1e-300,1e300]; d=2 invariance on concrete samples under symbolic ill-conditioned maps", "DSE + z3 nlsat", "§4 C20"),
 }
